@@ -153,6 +153,10 @@ def judge_roundtrip(b, ii, X, c, direction, dtype, consts):
     if num_first or num_second:
         ntol = max(1e-7, 8 * eps)
         bound = bound + 32 * ntol * (1 + np.where(ok, cond, 0)) * (1 + nJ + nJinv) * m
+    # a NaN image of a finite, moderate input of the (known) domain is never legitimate (overflow gives inf, and only
+    # for large magnitudes): report it instead of skipping the row
+    xin = np.isfinite(X.reshape(X.shape[0], -1)).all(axis=1) & (nx < 1e2)
+    nan_rows = np.nonzero(xin & np.isnan(y.reshape(y.shape[0], -1)).any(axis=1))[0]
     err = bt.vec_inf(x1 - X)
     # a point whose admissible error exceeds 1% of the data scale is ill-conditioned in this dtype
     # (e.g. images that underflow): it is skipped and counted, never judged
@@ -173,7 +177,7 @@ def judge_roundtrip(b, ii, X, c, direction, dtype, consts):
     return {
         "n": int(X.shape[0]), "judged": int(judged.sum()), "skipped": int((~judged).sum()), "moved": int(moved.sum()),
         "bad": np.nonzero(bad)[0], "badv1": np.nonzero(badv1)[0], "badv2": np.nonzero(badv2)[0], "err": err, "bound": bound,
-        "y": y, "x1": x1, "y2": y2, "x1b": x1b, "ratio": ratio, "first": first, "second": second,
+        "y": y, "x1": x1, "y2": y2, "x1b": x1b, "ratio": ratio, "first": first, "second": second, "nan_rows": nan_rows,
     }
 
 
@@ -278,6 +282,11 @@ def run_case(case):
                     i = int(np.argmax(r["err"] * (r["err"] <= r["bound"])))
                     sample = {"direction": name, "level": level, "x": X[i].tolist(), "image": r["y"][i].tolist(),
                               "back": r["x1"][i].tolist(), "err": float(r["err"][i]), "bound": float(r["bound"][i])}
+                if name != "image->dom->image":  # image points may legitimately leave the domain of the inverse by rounding
+                    for i in r["nan_rows"][:1]:
+                        add(f"{name}|nan-image|{classify_point(X[i], consts, dtype)}",
+                            f"{cls} level {level} cond#{ci}: {r['first']}({X[i].tolist()}) = {r['y'][i].tolist()} (NaN image of a finite in-domain input; {len(r['nan_rows'])} such points)",
+                            {"level": level, "cond": ci, "x": X[i].tolist(), "direction": name})
                 seen_kinds = set()
                 for i in r["bad"]:
                     kind = classify_point(X[i], consts, dtype)
